@@ -576,7 +576,19 @@ class Interp:
             # alignment test idiom: ptr & (2^k - 1)
             if b < a.obj.align and (b & (b + 1)) == 0:
                 return self.binop("and", bits, a.off, b, [])
+            if (b & (b + 1)) == 0 and bits == 64:
+                # the test asks for more than the object's declared alignment: the address becomes a symbolic multiple of that alignment,
+                # the code may branch on it, and accesses that need more than the declared alignment are then decided against the path
+                return simp((self.base_address(a.obj) + as_bv(a.off, 64)) & z3.BitVecVal(b, 64))
         raise ExecError("unsupported", "pointer arithmetic %s" % op)
+
+    def base_address(self, o):
+        ba = getattr(o, "base_sym", None)
+        if ba is None:
+            ba = o.base_sym = z3.BitVec("addr!%s!%d" % (o.name, o.id), 64)
+            if o.align > 1:
+                self.assumptions.append(z3.URem(ba, z3.BitVecVal(o.align, 64)) == 0)
+        return ba
 
     def icmp(self, pred, bits, a, b):
         if isinstance(a, Ptr) or isinstance(b, Ptr):
@@ -872,6 +884,11 @@ class Interp:
         if align and align > 1 and self.check_align:
             if o.align % align != 0 and not (is_conc(p.off) and False):
                 if o.align < align:
+                    if getattr(o, "base_sym", None) is not None:
+                        # the code has looked at the address: the access is fine exactly when the path taken implies the alignment
+                        self.check_vc(z3.URem(o.base_sym + as_bv(p.off, 64), z3.BitVecVal(align, 64)) == 0, "align",
+                                      "access with alignment %d to %s (base alignment %d) on a path whose address tests do not imply it" % (align, o.name, o.align))
+                        return
                     raise MemViolation("align", "access with alignment %d to %s (base alignment %d)" % (align, o.name, o.align))
             if is_conc(p.off):
                 if p.off % align != 0:
@@ -1488,6 +1505,15 @@ class Interp:
                 raise ExecError("unsupported", "indirect call through %r" % (cv,))
             name = cv.name
         args = [self.operand(av, at, regs, lay) for (at, av, attrs) in ins.args]
+        if name.startswith(("llvm.memcpy", "llvm.memmove", "llvm.memset")) and self.find_intercept(name) is None:
+            # the alignment the compiler assumed for a typed aggregate copy is carried by the call-site
+            # `align N` attributes of the pointer operands; the code generator may use aligned vector moves
+            n = args[2]
+            if not (is_conc(n) and n == 0):
+                for k, (at, av, attrs) in enumerate(ins.args[:2]):
+                    al = attrs.get("align") if attrs else None
+                    if al and al > 1 and isinstance(args[k], Ptr) and args[k].obj is not None:
+                        self._check_access(args[k], n if is_conc(n) else 0, al, k == 0)
         self.check_noalias(name, ins, args)
         return self.call_named(name, args, ins)
 
